@@ -64,6 +64,8 @@ class x12xml(object):
         self.writer.push(xname, attrib)
         for i in range(len(seg_data)):
             child_node = seg_node.get_child_node_by_idx(i)
+            if child_node is None:
+                break  # more elements than the map defines: reported by validation
             _ele = seg_data.get('{idx:02d}'.format(idx=i + 1))
             if child_node.usage == 'N' or _ele.is_empty():
                 pass  # Do not try to ouput for invalid or empty elements
@@ -73,6 +75,8 @@ class x12xml(object):
                 comp_data = seg_data.get('{idx:02d}'.format(idx=i + 1))
                 for j in range(len(comp_data)):
                     subele_node = child_node.get_child_node_by_idx(j)
+                    if subele_node is None:
+                        break  # more components than the map defines
                     (xname, attrib) = self._get_subele_info(subele_node.id)
                     self.writer.elem(xname, comp_data[j].get_value(), attrib)
                 self.writer.pop()  # end composite
@@ -110,6 +114,8 @@ class x12xml(object):
         self.writer.push(xname, attrib)
         for i in range(len(seg_data)):
             child_node = seg_node.get_child_node_by_idx(i)
+            if child_node is None:
+                break  # more elements than the map defines: reported by validation
             _ele = seg_data.get('{idx:02d}'.format(idx=i + 1))
             if child_node.usage == 'N' or _ele.is_empty():
                 pass  # Do not try to ouput for invalid or empty elements
@@ -119,6 +125,8 @@ class x12xml(object):
                 comp_data = seg_data.get('{idx:02d}'.format(idx=i + 1))
                 for j in range(len(comp_data)):
                     subele_node = child_node.get_child_node_by_idx(j)
+                    if subele_node is None:
+                        break  # more components than the map defines
                     (xname, attrib) = self._get_subele_info(subele_node.id)
                     self.writer.elem(xname, comp_data[j].get_value(), attrib)
                 self.writer.pop()  # end composite
